@@ -23,6 +23,31 @@ try:
 except ImportError:  # pragma: no cover
     import vlib
 
+META = {
+    "text": "Rocq theorems for ALL finite operation histories (two vectors incl. a_vec_swap, one fixed buffer, new/die) over "
+            "EVERY element size >= 0, EVERY index and count in [0, 2^64) (64-bit wrap-around written into the model) and every "
+            "allocator fault schedule: the invariants (siz >= 1, num <= mem, mem slots really owned, byte size < 2^63) are "
+            "preserved, no model error (out-of-block read/write, release of a non-live block) is reachable, and every step has "
+            "exactly the abstract-sequence semantics (result value, contents, destructor calls, capacity) of push/pull at either "
+            "end, insert/remove, store/erase, setn/setm/setz, sort, sort_fore/sort_back (both the bsearch and the bubble path), "
+            "push_sort, search, at/of/top/end; every returned element pointer is a slot inside owned storage; removal returns "
+            "the removed element intact via a_swap (rotation lemma); sorted-insert variants keep a sorted sequence sorted with "
+            "the element added and nothing lost (permutation); the fixed buffer refuses what does not fit and leaves the state "
+            "unchanged; a_vec_setm growth policy meets the request or reports A_OMEMORY unchanged. The guards repaired by the "
+            "fix: commits are characterised (..._fixed) and the original ones refuted by witness (..._refuted). Tie: extracted "
+            "model vs the C (ASan+UBSan, allocator shim with fault schedule): return value, returned offset and element behind "
+            "it, destructor calls, allocator requests, siz/num/mem/contents and ledger after EVERY operation.",
+    "note": "Trusted: Coq kernel; extraction (ExtrOcamlBasic only) + harness/C04/mdrv.ml, drv.c and its allocator shim; "
+            "hand-written model coq/C04/VecDefs.v tied by differential testing on the generated histories only (sizes 0-13, "
+            "indices aimed at 0, num-1, num, num+1, 2^63, 2^64-1 and the wrap points); memcpy/memmove as list splices, "
+            "realloc as a ledger that always moves, qsort as insertion sort (proved a sorted permutation; the harness "
+            "comparator is proved a total order whose equivalence is identity, so any correct qsort gives the same result), "
+            "bsearch as lookup; bytes of slots beyond num are not compared; memory safety of the C observed by ASan/UBSan, "
+            "proved only of the model. No axioms.",
+    "technique": "Rocq proof (invariant + refinement to an abstract sequence by induction over histories, 64-bit wrap explicit) "
+                 "+ extracted-model vs C correspondence under ASan/UBSan",
+}
+
 PID = "C04"
 H = vlib.VERIF / "harness" / PID
 CORPUS = vlib.VERIF / "corpus" / PID
